@@ -325,4 +325,41 @@ theorem deNumber_nearest (env : Env) (hfr : env.cfg.fr = true) (b : UInt8) (r : 
       simp only [numOfNRes, visitNumber, numberF32, Bool.false_eq_true, if_false, ofVisit, fixPos]
       rw [toF32_widen _ _ _ x hr]
 
+/-! ## the `f32` target on the text `ryu` prints for an `f32` (`float_roundtrip`) -/
+
+theorem deFloat_congr (single : Bool) (p q : Parts) (h1 : p.neg = q.neg) (h2 : p.int = q.int) (h3 : p.frac = q.frac)
+    (h4 : p.exp = q.exp) : deFloatRoundtrip single p = deFloatRoundtrip single q := by
+  obtain ⟨a, b, c, d, e⟩ := p
+  obtain ⟨a', b', c', d', e'⟩ := q
+  simp only at h1 h2 h3 h4
+  subst h1 h2 h3 h4
+  rfl
+
+/-- **print → typed parse, binary32**: under `float_roundtrip` and `RyuShortest`, `deserialize_f32` on the text the
+    serializer writes for a finite `f32` (followed by a terminator) returns that `f32`, bit for bit -/
+theorem deNumber_f32_ryu (env : Env) (hflt : env.flt = false) (hfr : env.cfg.fr = true) (ext : Spec.Program.Ext)
+    (hext : Spec.Program.ExtOK ext) (hr : SJ.Proofs.LexTopRoundtrip.RyuShortest ext) (b : UInt32)
+    (hb : Spec.Program.finite32 b = true) (rest : Bytes) (pos : Nat) (hs : Term rest) :
+    deNumber env .f32 (ext.ryu32 b ++ rest) pos = .ok (.f32 b) rest (pos + (ext.ryu32 b).length) := by
+  have hnum := hext.ryu32_number b hb
+  obtain ⟨hwf, hbytes⟩ := SJ.Proofs.Number.splitNumber_of_isNumber _ hnum
+  obtain ⟨wf, hlen, hic, hfit⟩ := SJ.Proofs.LexTopRoundtrip.parts_of_ryuText _ hnum (hr.f32_text b hb)
+  have hne : NoEagerLit (Spec.Number.splitNumber (ext.ryu32 b)) := by
+    intro en eds hexp hov
+    rw [hfit en eds hexp] at hov; cases hov
+  obtain ⟨c, tl, hct, hns, hscan⟩ := scanNumber_lit hflt _ hwf hne rest pos hs
+  rw [hbytes] at hct hscan
+  rw [hct]
+  unfold deNumber
+  rw [SJ.Proofs.Typed.withPeek_cons env _ (SJ.Proofs.ViaValue.isNumStart_not_ws hns)]
+  simp only [hns, if_true, hscan, Res.bind, hfr, Bool.true_and, beq_self_eq_true]
+  have hwf' : WF (litParts (Spec.Number.splitNumber (ext.ryu32 b))) :=
+    ⟨wf.int_digits, wf.int_nolead, wf.int_ne, wf.frac_digits, wf.frac_small, wf.exp_digits⟩
+  rw [f32Roundtrip_eq _ hwf' hlen, deFloat_congr true (litParts (Spec.Number.splitNumber (ext.ryu32 b)))
+      (Spec.Canon.partsOf (Spec.Number.splitNumber (ext.ryu32 b))) rfl rfl rfl rfl,
+    SJ.Proofs.LexTopRoundtrip.roundtrip32 ext hext hr b hb]
+  simp only [f32OfNRes]
+  rw [show f64ToF32 (F32.toF64 b) = b from
+    SJ.Proofs.LexTopF32.toF32_toF64 b (by rw [← SJ.Proofs.LexTopF32.finite32_eq_isFinite]; exact hb)]
+
 end SJ.Proofs.TypedFloat
